@@ -818,4 +818,151 @@ theorem written_lane_denotes (cs : List BcSnap) (hwf : wfChanges cs = true) (hs 
   · intro a ha t ht
     exact posFn_time cs hwf hsorted h0 hgc hm t (hts a ha t ht)
 
+/-! ### the tempo objects of the written file, read back by the book -/
+
+/-- a tempo point's own stored time is sent to the tempo point's own position -/
+theorem posFn_own (cs : List BcSnap) (hwf : wfChanges cs = true) (hs : strictSnaps cs = true) :
+    ∀ p ∈ cs.zip (tmOf 0 cs), posFn cs p.2.offset = p.1.snap := by
+  have hg : GridOK defaultGrid := gridOK_grid (by decide)
+  cases cs with
+  | nil => intro p hp; cases hp
+  | cons c rest =>
+    obtain ⟨ha, hb⟩ := snapAtAux_at_change hg rest 0 c hwf hs
+    intro p hp
+    simp only [tmOf, List.zip_cons_cons, List.mem_cons] at hp
+    rcases hp with rfl | hp
+    · simp [posFn, ha, Except.toOption]
+    · simp [posFn, hb p hp, Except.toOption]
+
+theorem zipIdxFrom_map' {α β} (f : α → β) (l : List α) : ∀ k, zipIdxFrom k (l.map f) = (zipIdxFrom k l).map (fun p => (p.1, f p.2)) := by
+  induction l with
+  | nil => intro k; rfl
+  | cons a t ih => intro k; simp only [List.map_cons, zipIdxFrom, ih]
+
+theorem zipIdxFrom_succ {α} (l : List α) : ∀ k, (zipIdxFrom k l).map (fun p => (p.1 + 1, p.2)) = zipIdxFrom (k + 1) l := by
+  induction l with
+  | nil => intro k; rfl
+  | cons a t ih => intro k; simp only [zipIdxFrom, List.map_cons, ih]
+
+/-- the tempo rows' objects: row `i` (counted from 1) is the object `base36 i` at the position of its own offset -/
+theorem tempoRows_objs (cs : List BcSnap) (lay : Layout) (c : WChart) :
+    (bmsTempoRows cs lay c).map objOfRow =
+      (zipIdxFrom 1 c.bpms).map (fun p => (⟨posOf (posFn cs p.2.offset), base36 p.1⟩ : Obj)) := by
+  unfold bmsTempoRows
+  rw [zipIdxFrom_map', List.map_map, List.map_map, ← zipIdxFrom_succ c.bpms 0, List.map_map]
+  rfl
+
+theorem noteRows_channel (cs : List BcSnap) (lay : Layout) (dflt : Bytes) (c : WChart) (hok : BmsOk cs lay c) :
+    ∀ r ∈ bmsNoteRows cs lay dflt c, ∃ col, (r.channel, col) ∈ lay.lanes := by
+  intro r hr
+  have key : ∀ col, (channelOf lay col).isSome = true → ((channelOf lay col).getD [], col) ∈ lay.lanes := by
+    intro col hsome
+    obtain ⟨ch, hch⟩ := Option.isSome_iff_exists.mp hsome
+    rw [hch]; exact channelOf_mem lay col ch hch
+  simp only [bmsNoteRows, List.mem_append, List.mem_map] at hr
+  rcases hr with (⟨h, hh, rfl⟩ | ⟨h, hh, rfl⟩) | ⟨h, hh, rfl⟩
+  · exact ⟨h.col, key _ (hok.cols.1 h hh)⟩
+  · exact ⟨h.col, key _ (hok.cols.2 h hh)⟩
+  · exact ⟨h.col, key _ (hok.cols.2 h hh)⟩
+
+/-- **The tempo list of the written file, by the book.**  Tempo rows of the chart in ANY order (`hp`), every tempo a
+three-decimal number (¬D06), fewer than 1295 of them; `exbpms` a tempo table that looks every id `base36 i` up as
+the (three-decimal) tempo of row `i` — what `_read_file_header` builds from the written `#BPMxx` lines
+(`exbpm_table_readback`).  Whenever the file's lines give channel 03 and channel 08 arrangements of the rows on
+those channels (`written_file_objects`), the by-the-book tempo list is defined and is the `#BPM` header tempo at
+measure 0 followed by exactly the in-memory tempo list `cs`. -/
+theorem written_tempo_denotes (cs : List BcSnap) (hwf : wfChanges cs = true) (hs : strictSnaps cs = true)
+    (h0 : firstAtZero cs = true) (hgc : gridCompatible (grid defaultMaxDiv) cs = true) (hm : metronomeOk cs = true)
+    (lay : Layout) (hlay : LayoutOK lay) (dflt : Bytes) (c : WChart) (hp : c.bpms.Perm (tmOf 0 cs)) (hok : BmsOk cs lay c)
+    (hdec : ∀ b ∈ c.bpms, roundDec 3 b.bpm = b.bpm) (hn : c.bpms.length < 1295)
+    (exbpms : Dict Rat) (hex : ∀ p ∈ zipIdxFrom 1 c.bpms, dictGet? exbpms (base36 p.1) = some (roundDec 3 p.2.bpm))
+    (bpm0 : Rat) (notes : List (Bytes × Bytes × Bytes)) (o3 o8 : List Obj)
+    (h3 : channelObjs notes lay.bpmCh = some o3)
+    (hp3 : o3.Perm (((bmsNoteRows cs lay dflt c ++ bmsTempoRows cs lay c).filter (rowShown lay.bpmCh)).map objOfRow))
+    (h8 : channelObjs notes lay.exbpmCh = some o8)
+    (hp8 : o8.Perm (((bmsNoteRows cs lay dflt c ++ bmsTempoRows cs lay c).filter (rowShown lay.exbpmCh)).map objOfRow)) :
+    denoteTempo lay notes exbpms bpm0 = some (⟨bpm0, 4, ⟨0, 0, some 4⟩⟩ :: cs) := by
+  have hsorted := sortedSnaps_of_strict hs
+  have hne : cs ≠ [] := by intro e; subst e; simp [firstAtZero] at h0
+  have hnote := noteRows_channel cs lay dflt c hok
+  -- nothing on channel 03
+  have e3 : (bmsNoteRows cs lay dflt c ++ bmsTempoRows cs lay c).filter (rowShown lay.bpmCh) = [] := by
+    rw [List.filter_eq_nil_iff]
+    intro r hr
+    simp only [rowShown, Bool.and_eq_true, decide_eq_true_eq, not_and]
+    intro e
+    rcases List.mem_append.mp hr with hr | hr
+    · obtain ⟨col, hmem⟩ := hnote r hr
+      have := hlay.not_tempo _ hmem
+      simp [e] at this
+    · simp only [bmsTempoRows, List.mem_map] at hr
+      obtain ⟨p, _, rfl⟩ := hr
+      exact absurd e.symm hlay.tempo_ne
+  -- channel 08 = the tempo rows
+  have e8 : (bmsNoteRows cs lay dflt c ++ bmsTempoRows cs lay c).filter (rowShown lay.exbpmCh) = bmsTempoRows cs lay c := by
+    rw [List.filter_append]
+    have a1 : (bmsNoteRows cs lay dflt c).filter (rowShown lay.exbpmCh) = [] := by
+      rw [List.filter_eq_nil_iff]
+      intro r hr
+      simp only [rowShown, Bool.and_eq_true, decide_eq_true_eq, not_and]
+      intro e
+      obtain ⟨col, hmem⟩ := hnote r hr
+      have := hlay.not_tempo _ hmem
+      simp [e] at this
+    have a2 : (bmsTempoRows cs lay c).filter (rowShown lay.exbpmCh) = bmsTempoRows cs lay c := by
+      rw [List.filter_eq_self]
+      intro r hr
+      simp only [bmsTempoRows, List.mem_map] at hr
+      obtain ⟨p, hpm, rfl⟩ := hr
+      have hlt := (zipIdxFrom_mem _ 0 p hpm).2.1
+      simp only [List.length_map] at hlt
+      have := (base36_roundtrip (p.1 + 1) (by omega)).2.2.2 (by omega)
+      simp [rowShown, this]
+    rw [a1, a2, List.nil_append]
+  rw [e3] at hp3
+  have ho3 : o3 = [] := List.Perm.eq_nil hp3
+  rw [e8, tempoRows_objs] at hp8
+  -- every channel-08 object is a tempo of the table
+  let g' : Obj → BcSnap := fun o => ⟨(dictGet? exbpms o.id).getD 0, 4, { o.snap with met := some 4 }⟩
+  have hpos : ∀ b ∈ c.bpms, 0 < b.bpm := by
+    intro b hb
+    have hb' := hp.mem_iff.mp hb
+    have hz2 : (cs.zip (tmOf 0 cs)).map (·.2) = tmOf 0 cs := List.map_snd_zip (by rw [tmOf_length])
+    rw [← hz2] at hb'
+    obtain ⟨q, hq, rfl⟩ := List.mem_map.mp hb'
+    rw [(zip_tmOf_fields 0 cs q hq).1]
+    exact (wfChanges_mem hwf (List.of_mem_zip hq).1).bpm_pos
+  have hf : ∀ o ∈ o8, tempoOfObj exbpms true o = some (g' o) := by
+    intro o ho
+    have ho' := hp8.mem_iff.mp ho
+    obtain ⟨p, hpm, rfl⟩ := List.mem_map.mp ho'
+    have hb := (zipIdxFrom_mem _ 1 p hpm).2.2
+    have hlook := hex p hpm
+    rw [hdec p.2 hb] at hlook
+    have hbp := hpos p.2 hb
+    have hnle : ¬ p.2.bpm ≤ 0 := not_le.mpr hbp
+    simp only [tempoOfObj, if_true, hlook, Option.bind_some, hnle, if_false, g', Option.getD_some]
+  have ht8 : (o8.map g').Perm cs := by
+    refine (hp8.map g').trans ?_
+    rw [List.map_map]
+    have hG := posFn_own cs hwf hs
+    have hrc := rows_changes_perm 0 cs hwf c.bpms hp (posFn cs) hG
+    refine (List.Perm.of_eq ?_).trans hrc
+    have : c.bpms.map (fun b => (⟨b.bpm, b.met, { posFn cs b.offset with met := some b.met }⟩ : BcSnap)) =
+        ((zipIdxFrom 1 c.bpms).map (·.2)).map (fun b => (⟨b.bpm, b.met, { posFn cs b.offset with met := some b.met }⟩ : BcSnap)) := by
+      rw [zipIdxFrom_map_snd]
+    rw [this, List.map_map]
+    apply List.map_congr_left
+    intro p hpm
+    have hb := (zipIdxFrom_mem _ 1 p hpm).2.2
+    have hlook := hex p hpm
+    rw [hdec p.2 hb] at hlook
+    have hmet : p.2.met = 4 := by rw [hok.met p.2 hb]; decide +kernel
+    simp only [Function.comp, g', hlook, Option.getD_some, hmet, posOf]
+  have hstrict : strictSnaps (sortBcSnap cs) = true := by rw [sortBcSnap_eq_self hsorted]; exact hs
+  have hsort : sortBcSnap (o8.map g') = cs := by
+    rw [sortBcSnap_eq_of_perm ht8 hstrict, sortBcSnap_eq_self hsorted]
+  unfold denoteTempo
+  simp only [h3, h8, ho3, List.map_nil, allSome, allSome_congr _ g' o8 hf, List.nil_append, strictAscBc, hsort, hs, if_true]
+
 end Reamber.BMS
